@@ -61,7 +61,9 @@ func c19(c *Ctx) {
 	{
 		info := mainFn.Info()
 		g := c.Graph(mainFn)
-		isSWN := func(fn *types.Func, _ *ast.CallExpr) bool { return isFunc(fn, "timesafeguard", "SynchronizedWithNetwork") }
+		isSWN := func(fn *types.Func, _ *ast.CallExpr) bool {
+			return isFunc(fn, "timesafeguard", "SynchronizedWithNetwork")
+		}
 		isSWMN := func(fn *types.Func, _ *ast.CallExpr) bool {
 			return isFunc(fn, "timesafeguard", "SynchronizedWithMasterAndNetwork")
 		}
